@@ -450,8 +450,38 @@ func (rs *refSource) dataLine(d *refData, line string, ln int) error {
 	rest := strings.TrimLeft(strings.TrimPrefix(strings.TrimSpace(line), f[0]), " ")
 	rest = strings.TrimSpace(strings.TrimPrefix(rest, f[1]))
 	v := refVar{Name: f[0], Off: len(d.Cells), Line: ln}
-	for _, e := range strings.Split(rest, ",") {
+	// elements are separated by commas outside double quotes; a quoted element is a string and stands for the
+	// bytes of its characters (pkg/basm dbDataConverter; the documentation only shows numbers)
+	var elems []string
+	cur, inStr := "", false
+	for _, ch := range rest {
+		switch {
+		case ch == '"':
+			inStr = !inStr
+			cur += string(ch)
+		case ch == ',' && !inStr:
+			elems = append(elems, cur)
+			cur = ""
+		default:
+			cur += string(ch)
+		}
+	}
+	if inStr {
+		return unsupported("line %d: string not closed in %q", ln, line)
+	}
+	elems = append(elems, cur)
+	for _, e := range elems {
 		e = strings.TrimSpace(e)
+		if len(e) >= 2 && e[0] == '"' && e[len(e)-1] == '"' && strings.Count(e, `"`) == 2 {
+			for _, ch := range []byte(e[1 : len(e)-1]) {
+				if ch >= 0x80 {
+					return unsupported("line %d: non-ASCII string %q", ln, e)
+				}
+				v.Bytes = append(v.Bytes, uint64(ch))
+			}
+			rs.Feat["db:string"] = true
+			continue
+		}
 		x, kind, ok := parseLiteral(e)
 		if !ok || x > 255 {
 			return unsupported("line %d: data expression %q", ln, e)
